@@ -75,3 +75,11 @@ package config
 //@ func transformHealthCheck
 //@   requires [ptrs] in != nil && in.Common != nil && args != nil
 //@   assigns args.Serverless, args.TrustAllHosts, in.Common.LogLevel
+// Setup builds the configuration from the defaults, the file and the two
+// transforms above, and from nothing else: there is no further pass over it.
+//@ func Setup
+//@   calls-only newDefaultCommonConfig, newDefaultServerConfig, newDefaultClientConfig, (*initializer).parseConfig, (*initializer).transformConfig
+// Rendering the arguments for the log changes none of them.
+//@ func (*Args).String
+//@   trusted
+//@   assigns nothing
